@@ -32,7 +32,7 @@ def domain(tier):
     ndiff = z3.Sum([z3.If(D1 != D2, 1, 0), z3.If(W1 != W2, 1, 0), z3.If(A1 != A2, 1, 0), z3.If(N1 != N2, 1, 0)])
     nodd = z3.Sum([z3.If(ED != 0, 1, 0), z3.If(EW != 0, 1, 0), z3.If(SHAPE != 0, 1, 0)])
     if tier == "thorough":
-        c += [ndiff <= 3, nodd <= 2]
+        c += [z3.Or(z3.And(ndiff <= 3, nodd <= 1), z3.And(ndiff <= 1, nodd <= 2))]
     else:
         c += [ndiff <= 2, nodd <= 1, z3.Implies(ndiff == 2, nodd == 0), D1 <= 3, D2 <= 4, W1 <= 3]
     return c
@@ -268,7 +268,7 @@ def main(tier, replay_payload=None):
     run.bounds = dict(creation="depth 1-5 (quick 1-3) x width 1-4 (quick 1-3) x 5 algorithms x 2 namespaces, empty or populated",
                       reopening="depth 1-5 x width 1-4 x (5 algorithms + %d unsupported names/spellings) x 2 namespaces x "
                                 "int / str / padded-str encodings x %d property shapes" % (len(BADALGOS), len(SHAPES)),
-                      constraint="differs from the creation configuration in <= 2 (thorough 3) keys, <= 1 (2) odd encodings/shapes",
+                      constraint="quick: differs from the creation configuration in <= 2 keys with <= 1 odd encoding/shape; thorough: (<= 3 keys and <= 1 odd) or (<= 1 key and <= 2 odd)",
                       fresh_path="unsupported algorithm at creation; data directories without hashstore.yaml")
     run.explanation = ("Creation and reopening configurations are vectors of z3 selector variables constrained by a "
                        "difference budget; for every feasible vector the real constructor runs over the environment "
